@@ -1,2 +1,70 @@
-(* C05 — statements are added as the proofs land; placeholder so the build has the file *)
-From Verif Require Import Base.Bytes Store.Model.
+(* C05 — the graph stays a rooted DAG and refused writes leave no trace.
+   Statements only; proofs in Store/ProofsTop.v.  [handle st o] = (state after, reply, ids on whose
+   rebroadcast subject the request is republished); reply 0 = ok, 1 = error. *)
+From Verif Require Import Base.Bytes Store.GraphCount Store.GraphWalk Store.Model Store.ProofsRows Store.ProofsHash Store.ProofsTop.
+From Verif Require Import Properties.StoreExample.
+Local Open Scope N_scope.
+
+(* any request answered with an error leaves everything unchanged and is not rebroadcast *)
+Theorem C05_error_no_trace :
+  forall st o, reply_of (handle st o) <> 0 -> state_of (handle st o) = st /\ pubs_of (handle st o) = [].
+Proof. exact error_no_trace. Qed.
+Print Assumptions C05_error_no_trace.
+
+Theorem C05_always_answered : forall st o, reply_of (handle st o) = 0 \/ reply_of (handle st o) = 1.
+Proof. exact reply_is_0_or_1. Qed.
+Print Assumptions C05_always_answered.
+
+(* refused classes *)
+Theorem C05_refused_self_edge : forall st id pts, reply_of (handle st (EdgePts id id pts)) = 1.
+Proof. exact refused_self_edge. Qed.
+Print Assumptions C05_refused_self_edge.
+
+Theorem C05_refused_cycle :
+  forall st id par pts l, wf st -> par <> [] -> find_edge (s_edges st) par id = None ->
+    gwalk (s_edges st) par l -> gendpoint par l = id ->
+    reply_of (handle st (EdgePts id par pts)) = 1.
+Proof. exact refused_cycle. Qed.
+Print Assumptions C05_refused_cycle.
+
+Theorem C05_refused_root_tombstone :
+  forall st par pts,
+    existsb (fun p => bytes_eqb (p_type p) str_tombstone && f64_gt0 (p_val p)) (collapse pts) = true ->
+    reply_of (handle st (EdgePts (s_root st) par pts)) = 1.
+Proof. exact refused_root_tombstone. Qed.
+Print Assumptions C05_refused_root_tombstone.
+
+Theorem C05_refused_no_node_type :
+  forall st id par pts, par <> [] -> find_edge (s_edges st) par id = None ->
+    last_node_type (collapse pts) = [] -> reply_of (handle st (EdgePts id par pts)) = 1.
+Proof. exact refused_no_node_type. Qed.
+Print Assumptions C05_refused_no_node_type.
+
+Theorem C05_refused_nan_node : forall st id pts, has_nan pts = true -> reply_of (handle st (NodePts id pts)) = 1.
+Proof. exact refused_nan_node. Qed.
+Print Assumptions C05_refused_nan_node.
+
+Theorem C05_refused_nan_edge : forall st id par pts, has_nan pts = true -> reply_of (handle st (EdgePts id par pts)) = 1.
+Proof. exact refused_nan_edge. Qed.
+Print Assumptions C05_refused_nan_edge.
+
+(* every reachable graph is acyclic (wf), so ... *)
+Theorem C05_acyclic_reachable :
+  forall ops st, wf st -> Inv st -> Forall op_ok ops -> wf (run st ops) /\ Inv (run st ops).
+Proof. exact run_inv. Qed.
+Print Assumptions C05_acyclic_reachable.
+
+(* ... the upward recursion of the hash update never runs out of fuel: more fuel changes nothing
+   (the model of "the instance keeps answering"; on a cyclic graph it would grow without bound) *)
+Theorem C05_total :
+  forall st x F, wf st -> (fuel_of (s_edges st) <= F)%nat ->
+    visits (s_edges st) (S F) x = visits (s_edges st) F x.
+Proof. exact total_visits. Qed.
+Print Assumptions C05_total.
+
+(* non-vacuity: the cycle-closing request of the example history is refused and changes nothing *)
+Example C05_example :
+  let st := run st0 (firstn 8 ex_ops) in
+  let o := nth 8 ex_ops (NodePts [] []) in
+  reply_of (handle st o) = 1 /\ state_of (handle st o) = st /\ pubs_of (handle st o) = [].
+Proof. vm_compute. repeat split; reflexivity. Qed.
